@@ -297,3 +297,52 @@ Definition apply_eof (act : list op * list nat) (acc : list part) (ln : Z)
   : list part :=
   filter (fun p => negb (existsb (Nat.eqb (fst p)) (snd act)))
          (apply_ops (ln + 1)%Z (fst act) acc).
+
+(* ------------------------------------------------------------------------
+   SequenceSearchDef.start / reset / stop as extracted by
+   translator/plugins/sequence.py (Gen/XSequence.v): straight-line programs
+   over the definition's fields. *)
+Inductive dstm :=
+| DSetMark (m : option Z)   (* self._mark = <literal> *)
+| DFreshId                  (* self._section_id = str(uuid.uuid4()) *)
+| DCheckId                  (* if self.current_section_id is None: raise *)
+| DComplete.                (* self.completed_sections.append(current id) *)
+
+(* `started` is `self._mark == started_mark` *)
+Definition mark_started (started_mark : Z) (m : option Z) : bool :=
+  match m with Some z => Z.eqb z started_mark | None => false end.
+
+(* state: the model's [ctl] and the list completed_sections; a fresh uuid4
+   is the next value of the counter, as everywhere in the model.  DCheckId
+   cannot fire: stop() is only called on a started definition, whose id was
+   set by start(). *)
+Definition run_dstm (started_mark : Z) (st : ctl * list nat) (s : dstm)
+  : ctl * list nat :=
+  let '(k, comp) := st in
+  match s with
+  | DSetMark m =>
+      ({| started := mark_started started_mark m; cur := cur k;
+          next := next k |}, comp)
+  | DFreshId =>
+      ({| started := started k; cur := next k; next := S (next k) |}, comp)
+  | DCheckId => (k, comp)
+  | DComplete => (k, (comp ++ [cur k])%list)
+  end.
+
+Definition run_dstms (started_mark : Z) (p : list dstm) (st : ctl * list nat)
+  : ctl * list nat := fold_left (run_dstm started_mark) p st.
+
+(* which part of a sequence definition (start / end / body argument of
+   __init__) is tagged with which suffix: the link table of __init__
+   composed with the suffix of each tag property *)
+Fixpoint assoc_str (k : string) (l : list (string * string)) : option string :=
+  match l with
+  | [] => None
+  | (a, b) :: r => if String.eqb a k then Some b else assoc_str k r
+  end.
+Definition part_suffixes (links suffixes : list (string * string))
+  : list (string * option string) :=
+  map (fun lk => (fst lk, assoc_str (snd lk) suffixes)) links.
+(* the harness reads a result's role from exactly these suffixes *)
+Definition expected_part_suffixes : list (string * option string) :=
+  [("body", Some "-body"); ("end", Some "-end"); ("start", Some "-start")].
